@@ -142,6 +142,11 @@ def chainM (B : Backends) (d : Do) (ty name : String) : M Bool := fun s =>
   let cp := chainParamsWith d ty name s.sp
   ((checkStates B cp s.st).1, { s with sp := cp, st := (checkStates B cp s.st).2 })
 
+/-- `check_states(state_params, env)` as `_state_check_chain` calls it (the callee iterates over copies: the caller's
+dictionary is not changed) -/
+def checkStatesM (B : Backends) : M Bool := fun s =>
+  ((checkStates B s.sp s.st).1, { s with st := (checkStates B s.sp s.st).2 })
+
 /-- `get_states(state_params, env)` … called by push / pop (the callee iterates over copies) -/
 def doStatesM (B : Backends) (d : Do) : M Unit := fun s =>
   ((doStates B d s.sp s.st).1, { s with st := (doStates B d s.sp s.st).2 })
